@@ -40,7 +40,7 @@ REACH = {
     "quick": {"date_values": 30000, "time_millis_values": 50000, "time_micros_values": 20000,
               "timestamp_values": 40000, "local_timestamp_values": 10000, "uuid_values": 2000,
               "decimal_cases": 20000, "decimal_must_raise": 2000, "decimal_must_succeed": 8000,
-              "decimal_neg_zero": 50, "decimal_fixed_boundary": 200, "decimal_by_reference": 500, "decimal_piecewise_files": 500, "subsecond_offsets": 500},
+              "decimal_neg_zero": 50, "decimal_fixed_boundary": 200, "decimal_by_reference": 500, "decimal_piecewise_files": 500, "subsecond_offsets": 500, "decimal_in_float_unions": 500, "decimal_rejection_recovery": 200},
     "thorough": {"date_values": 3652059, "time_millis_values": 86400000},
 }
 EPOCH_ORD = dt.date(1970, 1, 1).toordinal()
@@ -413,6 +413,29 @@ def decimals(sh, fa, rng, spec):
                     sh.violation("unrepresentable-decimal-stored", "%r (precision %d, scale %d, size %s) was written as %s instead of raising"
                                  % (d, p, s, size, out.getvalue().hex()), info)
                     return
+                if rng.random() < 0.25:
+                    # next to a floating-point branch the value must not slip in there instead ...
+                    for uj in ([js, "double"], ["float", js], ["null", "double", js]):
+                        st, err = guard(fa.schemaless_writer, io.BytesIO(), copy.deepcopy(uj), d)
+                        if st == "ok":
+                            sh.violation("unrepresentable-decimal-stored", "%r under the union %s was written (as a floating-point number) instead of raising" % (d, printable(uj, 120)), dict(info, schema=uj))
+                            return
+                    # ... and a Writer that rejected it goes on writing correct records
+                    from fastavro.write import Writer
+                    wrap = {"type": "record", "name": "Row", "fields": [{"name": "id", "type": "long"}, {"name": "note", "type": "string"}, {"name": "amount", "type": copy.deepcopy(js)}]}
+                    okd = decimal.Decimal(0).scaleb(-s) if s else decimal.Decimal(0)
+                    fo = io.BytesIO()
+                    w = Writer(fo, wrap, sync_interval=10**6)
+                    w.write({"id": 1, "note": "first", "amount": okd})
+                    st, err = guard(w.write, {"id": 2, "note": "x" * 50, "amount": d})
+                    w.write({"id": 3, "note": "t", "amount": okd})
+                    w.flush()
+                    st2, got = guard(lambda: list(fa.reader(io.BytesIO(fo.getvalue()))))
+                    if st == "ok" or st2 == "exc" or [r["id"] for r in got] != [1, 3] or any(r["amount"] != okd for r in got):
+                        sh.violation("decimal-roundtrip-differs", "a Writer that was handed the unrepresentable %r between two good records: rejected=%s, file reads %s"
+                                     % (d, st == "exc", exc_name(got) if st2 == "exc" else printable(got, 160)), dict(info, schema=wrap))
+                        return
+                    sh.count("decimal_rejection_recovery")
                 continue
             if st == "exc":
                 if verdict == "ok":
@@ -420,6 +443,16 @@ def decimals(sh, fa, rng, spec):
                     return
                 sh.count("decimal_either_rejected")
                 continue
+            if verdict == "ok" and rng.random() < 0.15:
+                # in a union with floating-point branches a Decimal still goes to the decimal branch
+                for uj, idx in (([js, "double"], 0), (["double", js], 1), (["null", "float", js], 2)):
+                    o2 = io.BytesIO()
+                    st2, err2 = guard(fa.schemaless_writer, o2, copy.deepcopy(uj), d)
+                    if st2 == "exc" or o2.getvalue()[:1] != bytes([idx * 2]) or o2.getvalue()[1:] != out.getvalue():
+                        sh.violation("decimal-stored-as-different-number", "%r under the union %s: %s (the decimal branch is %d and stores %s)"
+                                     % (d, printable(uj, 120), exc_name(err2) if st2 == "exc" else o2.getvalue().hex(), idx, out.getvalue().hex()), dict(info, schema=uj))
+                        return
+                sh.count("decimal_in_float_unions")
             if verdict == "ok":
                 sh.count("decimal_must_succeed")
             else:
